@@ -9,7 +9,7 @@ RULE = (
     "stop sets x 4 filter sets (quick n<=5); random trees with hostile names, custom nodenamefunc/nodefunc/edgefunc, options, indent, to_file; distinct = hash of the configuration"
 )
 ASSUMPTIONS = ["the order of edge lines among themselves is not part of the statement and is not checked"]
-GATES = ["mon.C13.export", "C13.edges_checked", "C13.maxlevel0", "C13.stop_and_filter", "C13.hostile_names", "C13.custom", "C13.to_file", "C13.predicate_change", "C13.value_semantics_nodes", "C13.attribute_reassigned", "C13.tree_changed_between_iterations", "C13.aborted_iteration_then_reuse", "C13.falsy_nodes"]
+GATES = ["mon.C13.export", "C13.large_tree", "C13.edges_checked", "C13.maxlevel0", "C13.stop_and_filter", "C13.hostile_names", "C13.custom", "C13.to_file", "C13.predicate_change", "C13.value_semantics_nodes", "C13.attribute_reassigned", "C13.tree_changed_between_iterations", "C13.aborted_iteration_then_reuse", "C13.falsy_nodes"]
 
 
 def plan(tier, seed, jobs):
@@ -54,7 +54,11 @@ def run(ctx):
     for r in range(nrand):
         rng = ctx.rng("rand", r)
         n = rng.randint(1, 14)
-        par, _ = gen.random_tree(rng, n)
+        big = r % 61 == 3  # beyond size thresholds (id tables, caches, batching): more than 1024 admitted nodes
+        if big:
+            n = rng.choice((1030, 1100, 1300))
+            ctx.count("C13.large_tree")
+        par, _ = gen.random_tree(rng, n, rng.choice(("uniform", "binary", "star")) if big else None)
         ch = gen.children_of(par)
         names = G.hostile_names(rng, n, rng.random() < 0.4)
         if any(c in str(x) for x in names for c in '"\\'):
